@@ -19,6 +19,7 @@ The write side (`WriteDirty` incl. incremental writes of successive snapshots, `
 Go code by the differential run only; see the level note.
 -/
 import Gossamer.Lib.C04Stored
+import Gossamer.Lib.C04WriteMain
 import Gossamer.Model.C04
 namespace Gossamer.C04
 open Gossamer Gossamer.Trie Gossamer.TrieHeap
@@ -50,6 +51,54 @@ theorem C04_absent (H : Bytes → Bytes) (db : DB) (root : Bytes) (t : Trie) (h 
 theorem C04_empty (H : Bytes → Bytes) (db : DB) (key : Bytes) : getFromDB H db (H [0]) key = some none := by
   have := C04_getFromDB H db (H [0]) .nil (Or.inl ⟨rfl, rfl⟩) key
   rw [this]; rfl
+
+/-! ### the write side: `WriteDirty` establishes what the read side needs -/
+
+/-- **`WriteDirty` stores the trie.**  For a trie that the heap represents (`HRep`) and whose caches
+    are coherent (`Coh`: a clean node carries the Merkle value of its sub-trie and that sub-trie is
+    already in the database — true in particular when every node is dirty), after `WriteDirty` the
+    database `Sto`-represents it and holds the root encoding under the root hash — the hypotheses of
+    `C04_getFromDB_stored` — unless two DIFFERENT values stored in the database have the same hash. -/
+theorem C04_writeDirty_stores (H : Bytes → Bytes) (hH : ∀ m, (H m).length = 32) (hp : Heap) (db : DB)
+    (t : Handle) (r0 : Nat) (ht : t.root = some r0) (T : Trie) (N : TrieCodec.Node)
+    (hr : HRep hp T N r0) (hc : Coh H (Mem db) hp true T N r0) (hd : depth T ≤ bigFuel)
+    (hok : DBOK H db) :
+    Collision H (writeDirty H hp db t).2 ∨
+    (Sto H (writeDirty H hp db t).2 T N ∧
+      dbGet (writeDirty H hp db t).2 (H (TrieCodec.encode H N)) = some (TrieCodec.encode H N)) := by
+  obtain ⟨h1, h2, _, _, _, _⟩ := writeDirty_stoG H hH hp db t r0 ht T N hr hc hd
+  have hok' : DBOK H (writeDirty H hp db t).2 :=
+    writeDirtyF_dbok (t.ctx H) bigFuel (hp, db) t.root hok
+  rcases noColl_or_collision H hH _ hok' with hn | hcol
+  · exact Or.inr ⟨sto_of_mem H hn T N h1, dbGet_of_mem hn h2⟩
+  · exact Or.inl hcol
+
+/-- after `WriteDirty` the heap is coherent again (everything reachable is clean, its Merkle value
+    cached, its sub-trie in the database): the invariant that incremental writes rely on -/
+theorem C04_writeDirty_coherent (H : Bytes → Bytes) (hH : ∀ m, (H m).length = 32) (hp : Heap) (db : DB)
+    (t : Handle) (r0 : Nat) (ht : t.root = some r0) (T : Trie) (N : TrieCodec.Node)
+    (hr : HRep hp T N r0) (hc : Coh H (Mem db) hp true T N r0) (hd : depth T ≤ bigFuel) :
+    HRep (writeDirty H hp db t).1 T N r0 ∧
+    Coh H (Mem (writeDirty H hp db t).2) (writeDirty H hp db t).1 true T N r0 ∧
+    ((writeDirty H hp db t).1.get r0).dirty = false ∧
+    (∀ k v, Mem db k v → Mem (writeDirty H hp db t).2 k v) := by
+  obtain ⟨_, _, h3, h4, h5, h6⟩ := writeDirty_stoG H hH hp db t r0 ht T N hr hc hd
+  exact ⟨h3, h4, h5, h6⟩
+
+/-- **Write, then read any key directly from the database**: `GetFromDB` on the root hash returns the
+    in-memory `Get` — short of a collision between two stored values or between the root encoding
+    and the encoding `[0]` of the empty trie. -/
+theorem C04_writeDirty_getFromDB (H : Bytes → Bytes) (hH : ∀ m, (H m).length = 32) (hp : Heap) (db : DB)
+    (t : Handle) (r0 : Nat) (ht : t.root = some r0) (T : Trie) (N : TrieCodec.Node)
+    (hr : HRep hp T N r0) (hc : Coh H (Mem db) hp true T N r0) (hd : depth T ≤ bigFuel)
+    (hsz : SizeOK T) (hok : DBOK H db) (key : Bytes) :
+    Collision H (writeDirty H hp db t).2 ∨ H (TrieCodec.encode H N) = H [0] ∨
+    getFromDB H (writeDirty H hp db t).2 (H (TrieCodec.encode H N)) key = some (Trie.get T key) := by
+  rcases C04_writeDirty_stores H hH hp db t r0 ht T N hr hc hd hok with hcol | ⟨hs, hg⟩
+  · exact Or.inl hcol
+  · by_cases hz : H (TrieCodec.encode H N) = H [0]
+    · exact Or.inr (Or.inl hz)
+    · exact Or.inr (Or.inr (C04_getFromDB_stored H hH _ T N hs (hrep_wf T N r0 hr hsz) (HRep.ne_nil hr) hz hg key))
 
 /-! ### a concrete persisted state (V1, a hashed 40-byte value, an inlined sub-branch) -/
 
